@@ -173,7 +173,64 @@ def defaultdict_inputs(out):
     return n
 
 
+def instances_as_input(out):
+    """a dataclass instance is the value passed in when it is serialised, copied, re-validated or handed to another constructor:
+    into_data / dict (every option) / convert / copy / replace / use as a field value must leave its fields, its set-field record
+    and the containers it holds as they were.  Classes with excluded, renamed, init=False and container fields."""
+    import typing as t
+    import pane
+    n = 0
+
+    class Inner(pane.PaneBase):
+        tags: t.List[str] = pane.field(default_factory=list)
+        meta: t.Dict[str, int] = pane.field(default_factory=dict)
+
+    class Acct(pane.PaneBase, rename='camel'):
+        user_name: str
+        token: str = pane.field(default='', exclude=True)
+        secret_parts: t.List[int] = pane.field(default_factory=list, exclude=True)
+        inner: Inner = pane.field(default_factory=Inner)
+        note: t.Optional[str] = None
+        seq_no: int = pane.field(init=False, default=0)
+
+    class Outer(pane.PaneBase, out_format='tuple', in_format=('tuple', 'struct')):
+        acct: Acct
+        accts: t.List[Acct] = pane.field(default_factory=list)
+
+    def mk():
+        a = Acct('u', token='s3cr3t', secret_parts=[1, 2], inner=Inner(tags=['x'], meta={'k': 1}))
+        return [('set excluded fields', a), ('from data', Acct.from_data({'userName': 'v', 'token': 't', 'secretParts': [3]})),
+                ('defaults only', Acct('w')), ('nested', Outer(a, [Acct('z', token='q')]))]
+    calls = [
+        ('dict()', lambda x: x.dict()), ('dict(set_only=True)', lambda x: x.dict(set_only=True)), ("dict(rename='snake')", lambda x: x.dict(rename='snake')),
+        ("dict(set_only=True, rename='kebab')", lambda x: x.dict(set_only=True, rename='kebab')), ('into_data()', lambda x: x.into_data()),
+        ('pane.into_data(x)', lambda x: pane.into_data(x)), ('pane.into_data(x, type(x))', lambda x: pane.into_data(x, type(x))),
+        ('pane.convert(x, type(x))', lambda x: pane.convert(x, type(x))), ('copy.copy', lambda x: copy.copy(x)), ('copy.deepcopy', lambda x: copy.deepcopy(x)),
+        ('__replace__()', lambda x: x.__replace__()), ('repr / == / hash', lambda x: (repr(x), x == x, hash(x))),
+        ('as a field value of another instance', lambda x: Outer(x) if isinstance(x, Acct) else Outer(x.acct, list(x.accts))),
+        ('pane.into_data([x, x])', lambda x: pane.into_data([x, x])),
+    ]
+    for label, x in mk():
+        for cname, call in calls:
+            n += 1
+            before = snapshot(x)
+            with warnings.catch_warnings():
+                warnings.simplefilter('ignore')
+                try:
+                    call(x)
+                    verdict = 'ok'
+                except Exception as e:
+                    verdict = f'{type(e).__name__}: {str(e)[:80]}'
+            after = snapshot(x)
+            if after != before:
+                out.violation(f'C09:instance-changed:{cname}', f'{cname} on {x!r} ({label}; {verdict}) changed the instance: before {before!r}, after {after!r}',
+                              {'call': cname, 'instance': repr(x), 'case': label})
+                x = dict(mk())[label]
+    return n
+
+
 def run(ctx, out):
+    out.evaluations += instances_as_input(out)
     out.rule = ('types x values, both verdicts; the value is deep-copied into instrumented dict/list subclasses (still dict/list for every '
                 'isinstance gate) that record every mutating method call; from_data, collect_errors, convert, into_data (typed values), '
                 'dataclass constructors (*args / **kwargs). Any mutator call on an input object, or a difference of the deep structural '
